@@ -544,6 +544,9 @@ where
     
     /// Get a value by key, updating its position in the LRU list
     pub fn get(&self, key: &K) -> Option<V> {
+        // Take the node lock before the index lookup and keep it, so that the node the index
+        // points to cannot be evicted and re-used for another key in between.
+        let mut nodes = self.nodes.write().ok()?;
         let hash_map = self.hash_map.read().ok()?;
         let node_idx = match hash_map.get(key) {
             Some(&idx) => idx,
@@ -556,7 +559,6 @@ where
         };
         drop(hash_map);
         
-        let mut nodes = self.nodes.write().ok()?;
         if (node_idx as usize) >= nodes.len() || !nodes[node_idx as usize].is_valid {
             return None;
         }
